@@ -23,6 +23,13 @@ package main
 //            opened on it, as the connection itself stays alive; ifin = the server closes the connection while idle.
 //            dial tokens: ok | blackhole (a UDP socket that swallows everything) | efin (connection closed right
 //            after the handshake) | silent | half | garbage | fin | rst (per stream). att = streams the server saw.
+//     idle=<ms> [bg=<ms>] (tcpp, tlsp, udp): the transport is built with this SHORT idle time-out (udp: a
+//            PipelineTransport directly over UDP sockets, as NewUpstream pins one minute there). With bg, BACKGROUND
+//            exchanges (own deadline 200 ms) are started every bg ms on the same transport while the measured one
+//            waits, and 4 more (deadline 400 ms) after it returned. A pooled connection that goes `silent` on reuse
+//            must be declared dead by the read loop's idle deadline although queries keep being written on it; the
+//            measured exchange (deadline = several idle time-outs) is then retried on a fresh connection.
+//            The result carries  bg=<started>/<replied>  after=<replied>/<started>  (not compared with the model).
 //   result: res=<REPLY|ERR|HANG> dials=<n|-> att=<n|-> when=<early|dl> late=<0|1>
 //     dials: sockets created by the upstream's dialer during the measured exchange (Opt.Control hook)
 //     att  : on ERR, the number of joined errors (= loop iterations of ExchangeContext); '-' when not observable
@@ -561,6 +568,14 @@ func faultsCase(f map[string]string) string {
 		conc = hx.MustAtoi(f["conc"])
 	}
 
+	idle, bgEvery := time.Duration(0), time.Duration(0)
+	if f["idle"] != "" {
+		idle = time.Duration(hx.MustAtoi(f["idle"])) * time.Millisecond
+	}
+	if f["bg"] != "" {
+		bgEvery = time.Duration(hx.MustAtoi(f["bg"])) * time.Millisecond
+	}
+
 	s := &c14Server{tr: tr, pool: pool, dial: dial, conc: conc, done: make(chan struct{}), resume: make(chan struct{}),
 		warmRelease: make(chan struct{}), warmWant: len(pool), udpPooled: map[string]bool{}, udpNew: map[string]int{}}
 	s.useTLS = tr == "tls" || tr == "tlsp"
@@ -607,6 +622,7 @@ func faultsCase(f map[string]string) string {
 			dials.Add(1)
 			return nil
 		},
+		IdleTimeout: idle,
 	}
 	var url string
 	switch tr {
@@ -625,9 +641,21 @@ func faultsCase(f map[string]string) string {
 	default:
 		return "HARNESS-ERROR unknown transport " + tr
 	}
-	u, err := upstream.NewUpstream(url, opt)
-	if err != nil {
-		return "HARNESS-ERROR " + err.Error()
+	var u upstream.Upstream
+	if tr == "udp" && idle > 0 {
+		d := &net.Dialer{Control: opt.Control}
+		addr := fmt.Sprintf("127.0.0.1:%d", port)
+		u = transport.NewPipelineTransport(transport.PipelineOpts{
+			DialContext:        func(ctx context.Context) (net.Conn, error) { return d.DialContext(ctx, "udp", addr) },
+			IdleTimeout:        idle,
+			IsTCP:              false,
+			MaxConcurrentQuery: 4096,
+		})
+	} else {
+		u, err = upstream.NewUpstream(url, opt)
+		if err != nil {
+			return "HARNESS-ERROR " + err.Error()
+		}
 	}
 	defer func() {
 		// DoHTransport.Close on the pinned tree recurses when it has an extra closer (D12); plain https has none
@@ -710,6 +738,7 @@ func faultsCase(f map[string]string) string {
 		ok   bool
 		nerr int
 		el   time.Duration
+		nd   int // dials so far when this exchange returned
 	}
 	rc := make(chan result, conc)
 	for i := 0; i < conc; i++ {
@@ -721,8 +750,39 @@ func faultsCase(f map[string]string) string {
 			r, err := u.ExchangeContext(ctx, hx.BuildQuery(id, name, 1, 1, true))
 			el := time.Since(t0)
 			ok := err == nil && r != nil && r.Header.ID == id && len(r.Answers) == 1
-			rc <- result{ok: ok, nerr: c14CountErrs(err), el: el}
+			rc <- result{ok: ok, nerr: c14CountErrs(err), el: el, nd: int(dials.Load() - d0)}
 		}(i)
+	}
+	// background exchanges on the same transport while the measured one waits
+	var bgN, bgOK atomic.Int32
+	bgStop := make(chan struct{})
+	var bgWG sync.WaitGroup
+	if bgEvery > 0 {
+		bgWG.Add(1)
+		go func() {
+			defer bgWG.Done()
+			tk := time.NewTicker(bgEvery)
+			defer tk.Stop()
+			for n := 0; ; n++ {
+				select {
+				case <-bgStop:
+					return
+				case <-tk.C:
+				}
+				bgN.Add(1)
+				bgWG.Add(1)
+				go func(n int) {
+					defer bgWG.Done()
+					ctx, cancel := context.WithTimeout(context.Background(), 200*time.Millisecond)
+					defer cancel()
+					id := uint16(0x2000 + n)
+					r, err := u.ExchangeContext(ctx, hx.BuildQuery(id, name, 1, 1, true))
+					if err == nil && r != nil && r.Header.ID == id {
+						bgOK.Add(1)
+					}
+				}(n)
+			}
+		}()
 	}
 	var all []result
 	hang := false
@@ -735,14 +795,36 @@ func faultsCase(f map[string]string) string {
 			hang = true
 		}
 	}
+	close(bgStop)
+	bgWG.Wait()
+	extra := ""
+	if bgEvery > 0 {
+		// after the switch-over: is the transport usable again?
+		afterOK := 0
+		for n := 0; n < 4 && !hang; n++ {
+			ctx, cancel := context.WithTimeout(context.Background(), 400*time.Millisecond)
+			id := uint16(0x3000 + n)
+			r, err := u.ExchangeContext(ctx, hx.BuildQuery(id, name, 1, 1, true))
+			cancel()
+			if err == nil && r != nil && r.Header.ID == id {
+				afterOK++
+			}
+			time.Sleep(20 * time.Millisecond)
+		}
+		extra = fmt.Sprintf(" bg=%d/%d after=%d/4", bgN.Load(), bgOK.Load(), afterOK)
+	}
 	time.Sleep(20 * time.Millisecond)
 	nd := int(dials.Load() - d0)
+	if bgEvery > 0 && len(all) == 1 {
+		// later dials belong to the background / follow-up exchanges (e.g. the fresh connection idling out in between)
+		nd = all[0].nd
+	}
 	dstr := fmt.Sprint(nd)
 	if tr == "doh" || conc > 1 {
 		dstr = "-"
 	}
 	if hang {
-		return fmt.Sprintf("res=HANG dials=%s att=- when=dl late=1", dstr)
+		return fmt.Sprintf("res=HANG dials=%s att=- when=dl late=1", dstr) + extra
 	}
 	cls, when, late, att := "", "", 0, "-"
 	for _, res := range all {
@@ -769,7 +851,7 @@ func faultsCase(f map[string]string) string {
 	if conc == 1 && tr != "doh" && !all[0].ok {
 		att = fmt.Sprint(all[0].nerr)
 	}
-	return fmt.Sprintf("res=%s dials=%s att=%s when=%s late=%d", cls, dstr, att, when, late)
+	return fmt.Sprintf("res=%s dials=%s att=%s when=%s late=%d", cls, dstr, att, when, late) + extra
 }
 
 // ---- DoH plumbing: a listener that lets the scripted server refuse / black-hole new connections
